@@ -2,13 +2,14 @@ import PegVerif.Model.Sem
 import PegVerif.Model.Link
 import PegVerif.Model.Ast
 import PegVerif.Generated.PegGrammar
+import PegVerif.Model.GoUnicode
 /-
   MODEL of the front end (the reader of `.peg` texts), core Lean only.
 
       text ──evalF (PEG semantics of the REGENERATED grammar of peg.peg, after `linkGrammar`)──▶ forest
            ──postorderL──▶ tokens ──execute (runtime `Execute()`)──▶ action events (name, text)
            ──action code of the event's action, parsed as `p.Method(arg)` statements──▶ builder calls
-           ──builder (`tree.Add*` of tree/peg.go:351-445 transcribed)──▶ top-level node list + `t.errs`
+           ──builder (`tree.Add*` of tree/peg.go:351-475 transcribed)──▶ top-level node list + `t.errs`
            ──first statement of `Compile`──▶ the node list, or the recorded errors (`errors.Join(t.errs...)`)
 
   There is no hand-written parser of the .peg language here: the only parser is `evalF` running
@@ -106,26 +107,16 @@ def BState.addErr (st : BState) (msg : List Sym) : BState := { st with errs := s
 
 /-! ### Go library functions used by the builder -/
 
-/-- `strings.ToLower` / `ToUpper` on one rune; only ASCII is modelled. -/
-def lowerSym (c : Sym) : Option Sym :=
-  if c < 128 then some (if 65 ≤ c ∧ c ≤ 90 then c + 32 else c) else none
-def upperSym (c : Sym) : Option Sym :=
-  if c < 128 then some (if 97 ≤ c ∧ c ≤ 122 then c - 32 else c) else none
+/-- `unicode.ToLower` / `unicode.ToUpper` on one rune, for EVERY rune (Model/GoUnicode.lean: the ASCII
+    branch and the search of `unicode.CaseRanges`, regenerated from the Go library). -/
+def lowerSym (c : Sym) : Sym := unicodeToLower c
+def upperSym (c : Sym) : Sym := unicodeToUpper c
 
-def mapSyms (f : Sym → Option Sym) : List Sym → Option (List Sym)
-  | [] => some []
-  | c :: cs => match f c, mapSyms f cs with
-    | some d, some ds => some (d :: ds)
-    | _, _ => none
-
-def toLowerS (s : List Sym) : Out (List Sym) :=
-  match mapSyms lowerSym s with
-  | some r => .ok r
-  | none => .unsupported "strings.ToLower on a non-ASCII rune"
-def toUpperS (s : List Sym) : Out (List Sym) :=
-  match mapSyms upperSym s with
-  | some r => .ok r
-  | none => .unsupported "strings.ToUpper on a non-ASCII rune"
+/-- `strings.ToLower(s)` / `strings.ToUpper(s)` on the runes of a (valid UTF-8) string: the ASCII
+    fast path and `strings.Map(unicode.ToLower, s)` both replace every rune by its image (the image
+    is never negative, so `Map` drops nothing). -/
+def toLowerS (s : List Sym) : List Sym := s.map lowerSym
+def toUpperS (s : List Sym) : List Sym := s.map upperSym
 
 /-- Value of a digit of `strconv.ParseUint` (`0-9`, `a-z`, `A-Z`); `base` for any other byte. -/
 def digitRaw (base : Nat) (c : Sym) : Nat :=
@@ -204,11 +195,11 @@ def runeOfInt (x : Int) : Sym :=
   | .ofNat n => if n > 0x10FFFF ∨ (0xD800 ≤ n ∧ n ≤ 0xDFFF) then 0xFFFD else n
   | .negSucc _ => 0xFFFD
 
-/-! ### The builder methods (tree/peg.go:351-445) -/
+/-! ### The builder methods (tree/peg.go:351-475) -/
 
 inductive Op where
   | addRule (s : List Sym) | addExpression | addName (s : List Sym) | addDot
-  | addCharacter (s : List Sym) | addDoubleCharacter (s : List Sym)
+  | addCharacter (s : List Sym) | addDoubleCharacter (s : List Sym) | addCaseFold
   | addHexaCharacter (s : List Sym) | addOctalCharacter (s : List Sym)
   | addPredicate (s : List Sym) | addStateChange (s : List Sym) | addNil
   | addAction (s : List Sym) | addPackage (s : List Sym) | addSpace (s : List Sym)
@@ -239,6 +230,31 @@ def addFix (ty : NType) (st : BState) : Out BState :=
 
 def addCharacterS (s : List Sym) (st : BState) : BState := st.pushFront (.leaf .character s)
 
+/-- `t.AddDoubleCharacter(text)`: lower case, upper case, `AddAlternate`. -/
+def addDoubleCharacterS (s : List Sym) (st : BState) : Out BState :=
+  addList .alternate (addCharacterS (toUpperS s) (addCharacterS (toLowerS s) st))
+
+/-- `t.AddCaseFold()`: the node on top (the character `Char` has just pushed) is taken off; if its
+    string has no case (`strings.ToLower` and `strings.ToUpper` of it agree) it is put back as it
+    was; otherwise it is replaced by what `AddDoubleCharacter` builds for its string, and when the
+    string is neither its lower nor its upper case form (a title case letter) the node itself is
+    appended as a further alternative (`t.PushFront(c); t.AddAlternate()`). -/
+def addCaseFoldS (st : BState) : Out BState :=
+  match st.popFront with
+  | .ok (c, st1) =>
+    let text := c.s
+    let lower := toLowerS text
+    let upper := toUpperS text
+    if lower = upper then .ok (st1.pushFront c)
+    else
+      match addDoubleCharacterS text st1 with
+      | .ok st2 =>
+        if text ≠ lower ∧ text ≠ upper then addList .alternate (st2.pushFront c) else .ok st2
+      | .panic m => .panic m
+      | .unsupported m => .unsupported m
+  | .panic m => .panic m
+  | .unsupported m => .unsupported m
+
 def Op.apply : Op → BState → Out BState
   | .addRule s, st =>
     .ok { (st.pushFront (.mk .rule s st.rulesCount [])) with rulesCount := st.rulesCount + 1 }
@@ -249,10 +265,8 @@ def Op.apply : Op → BState → Out BState
   | .addName s, st => .ok (st.pushFront (.leaf .name s))
   | .addDot, st => .ok (st.pushFront (.leaf .dot [46]))
   | .addCharacter s, st => .ok (addCharacterS s st)
-  | .addDoubleCharacter s, st => do
-    let lo ← toLowerS s
-    let up ← toUpperS s
-    addList .alternate (addCharacterS up (addCharacterS lo st))
+  | .addDoubleCharacter s, st => addDoubleCharacterS s st
+  | .addCaseFold, st => addCaseFoldS st
   | .addHexaCharacter s, st =>
     let hexa := parseInt32 16 s
     let st1 := if parseIntErr32 16 s || !validRune hexa then st.addErr (hexErrMsg s) else st
@@ -276,12 +290,8 @@ def Op.apply : Op → BState → Out BState
   | .addDoubleRange, st => do
     let (a, st1) ← st.popFront
     let (b, st2) ← st1.popFront
-    let bl ← toLowerS b.s
-    let al ← toLowerS a.s
-    let st3 ← addList .range (addCharacterS al (addCharacterS bl st2))
-    let bu ← toUpperS b.s
-    let au ← toUpperS a.s
-    let st4 ← addList .range (addCharacterS au (addCharacterS bu st3))
+    let st3 ← addList .range (addCharacterS (toLowerS a.s) (addCharacterS (toLowerS b.s) st2))
+    let st4 ← addList .range (addCharacterS (toUpperS a.s) (addCharacterS (toUpperS b.s) st3))
     addList .alternate st4
   | .addPeekFor, st => addFix .peekFor st
   | .addPeekNot, st => addFix .peekNot st
@@ -442,6 +452,7 @@ def Call.toOp (c : Call) (text : List Sym) : Option Op :=
     else if m = "AddNil" then some .addNil
     else if m = "AddAlternate" then some .addAlternate
     else if m = "AddSequence" then some .addSequence
+    else if m = "AddCaseFold" then some .addCaseFold
     else if m = "AddRange" then some .addRange
     else if m = "AddDoubleRange" then some .addDoubleRange
     else if m = "AddPeekFor" then some .addPeekFor
